@@ -72,6 +72,8 @@ enum Action {
     ActorIndex { state: u32, collection: u8 },
     ProofDropFn,
     ForeignHandle { callee: u8, use_: u8, delta: i8, which: u8 },
+    /// globalize an own object passing the held node as role-assignment and/or metadata module
+    GlobalizeForeignModules { as_role_assignment: bool },
 }
 
 #[derive(Clone, Copy, PartialEq, Eq, Debug)]
@@ -286,6 +288,7 @@ fn expect(actor: Actor, obj: Option<Obj>, action: &Action) -> Exp {
         },
         Action::ProofDropFn => Allowed,
         Action::ForeignHandle { .. } => Forbidden,
+        Action::GlobalizeForeignModules { .. } => Forbidden,
     }
 }
 
@@ -301,7 +304,7 @@ fn gen_scenario(g: &mut Gen) -> Scenario {
     let actor = [Actor::Func, Actor::GlobalMethod, Actor::OwnedMethod, Actor::InnerMethod][g.index(4)];
     let foreign = [Obj::QObj, Obj::QInner, Obj::QGlobal, Obj::Bucket, Obj::Proof, Obj::Vault];
     let maker = |g: &mut Gen| [Maker::P, Maker::Q, Maker::Tx][g.index(3)];
-    let family = g.weighted(&[8, 6, 6, 3, 3, 5, 6, 3, 2, 3]);
+    let family = g.weighted(&[8, 6, 6, 3, 3, 5, 6, 3, 2, 3, 2]);
     let mut roundtrip = false;
     let mut by_reference = false;
     let (obj, action) = match family {
@@ -364,6 +367,7 @@ fn gen_scenario(g: &mut Gen) -> Scenario {
             }
         }
         8 => (Some(Obj::Proof), Action::ProofDropFn),
+        10 => (Some([Obj::QObj, Obj::QInner, Obj::Bucket, Obj::Vault, Obj::OwnObj][g.index(5)]), Action::GlobalizeForeignModules { as_role_assignment: g.bool() }),
         _ => (None, Action::ForeignHandle { callee: g.below(3) as u8, use_: g.below(9) as u8, delta: [0i8, 0, 0, 1, -1][g.index(5)], which: g.below(2) as u8 }),
     };
     Scenario { actor, obj, action, roundtrip, by_reference }
@@ -419,7 +423,7 @@ fn acting_ops(b: &mut B, w: &World, sc: &Scenario, tx_res: Option<u8>) {
                 1,
             );
         }
-        Action::ForeignHandle { .. } => unreachable!(),
+        Action::ForeignHandle { .. } | Action::GlobalizeForeignModules { .. } => unreachable!(),
     };
     if let Action::GlobalizeWith { q_object } = &sc.action {
         let y = acquire(b, w, sc.actor, if *q_object { Obj::QObj } else { Obj::OwnObj }, None);
@@ -428,14 +432,38 @@ fn acting_ops(b: &mut B, w: &World, sc: &Scenario, tx_res: Option<u8>) {
         b.log("B");
         return;
     }
+    if let Action::GlobalizeForeignModules { as_role_assignment } = &sc.action {
+        // a genuine module of the other kind, plus the foreign node in the place of the second module
+        let genuine = {
+            let (bp, f, a): (&str, &str, Vec<u8>) = if *as_role_assignment {
+                ("Metadata", "create", enc(&v_unit()))
+            } else {
+                ("RoleAssignment", "create", enc_t(&(OwnerRoleEntry::new(AccessRule::DenyAll, OwnerRoleUpdater::None), IndexMap::<ModuleId, RoleAssignmentInit>::new())))
+            };
+            let pkg = if *as_role_assignment { METADATA_MODULE_PACKAGE } else { ROLE_ASSIGNMENT_MODULE_PACKAGE };
+            b.op(Op::CallFunction { package: pkg, blueprint: bp.into(), function: f.into(), args: a }, 2) + 1
+        };
+        let own = b.op(Op::NewObject { blueprint: PUPPET_BLUEPRINT.into(), fields: std_fields(), kv: vec![] }, 1);
+        b.log("A");
+        let (ra, md) = if *as_role_assignment { (x.unwrap(), genuine) } else { (genuine, x.unwrap()) };
+        b.op(Op::GlobalizeWithModules { object: N::Slot(own), role_assignment: N::Slot(ra), metadata: N::Slot(md), reservation: None }, 1);
+        b.log("B");
+        return;
+    }
     if sc.by_reference {
-        // hand a *reference* to the node to another frame of P's code, which tries the operation
-        let mut inner = B::new();
-        inner.op(Op::Import(v_tuple(vec![v_ref(x.unwrap())])), 1);
-        inner.log("A");
-        critical(&mut inner, Some(0));
-        inner.log("B");
-        b.op(Op::CallFunction { package: w.puppet_p, blueprint: PUPPET_BLUEPRINT.into(), function: PUPPET_RUN.into(), args: script_args(&inner.script()) }, 1);
+        // the frame gives the node away into a key-value store of its own and keeps the entry open:
+        // the node is then visible to it (a transient reference through the open substate) but no
+        // longer owned by it. (References to non-global nodes cannot be passed in call arguments:
+        // the kernel treats them as direct-access references.)
+        let xs = x.unwrap();
+        let st = b.op(Op::KvStoreNew { allow_ownership: true }, 1);
+        let h = b.op(Op::KvOpen { store: N::Slot(st), key: enc(&v_u32(2)), mutable: true }, 1);
+        b.op(Op::KvSet(h, enc(&v_own(xs))), 1);
+        b.op(Op::KvClose(h), 1);
+        b.op(Op::KvOpen { store: N::Slot(st), key: enc(&v_u32(2)), mutable: false }, 1);
+        b.log("A");
+        critical(b, Some(xs));
+        b.log("B");
         return;
     }
     b.log("A");
@@ -543,8 +571,9 @@ fn class_of(sc: &Scenario) -> String {
         Action::ActorIndex { state, collection } => format!("actor_index_insert(state {}, collection {})", state, collection),
         Action::ProofDropFn => "Proof_drop function".to_string(),
         Action::ForeignHandle { .. } => "use of a handle opened in another frame".to_string(),
+        Action::GlobalizeForeignModules { as_role_assignment } => format!("globalize of an own object with the node as {} module", if *as_role_assignment { "role-assignment" } else { "metadata" }),
     };
-    format!("{} on {:?} by {:?}{}{}", a, sc.obj, sc.actor, if sc.roundtrip { " after a round trip through a key-value store" } else { "" }, if sc.by_reference { " through a reference passed to another frame" } else { "" })
+    format!("{} on {:?} by {:?}{}{}", a, sc.obj, sc.actor, if sc.roundtrip { " after a round trip through a key-value store" } else { "" }, if sc.by_reference { " held only through an open substate that owns it" } else { "" })
 }
 
 fn family_label(a: &Action) -> &'static str {
@@ -559,6 +588,7 @@ fn family_label(a: &Action) -> &'static str {
         Action::ActorKv { .. } | Action::ActorIndex { .. } => "actor collection access with every state value",
         Action::ProofDropFn => "proof dropped through its blueprint",
         Action::ForeignHandle { .. } => "handle from another frame",
+        Action::GlobalizeForeignModules { .. } => "globalize with a foreign node as module",
     }
 }
 
@@ -568,8 +598,8 @@ fn case(g: &mut Gen) -> Outcome {
         let sc = gen_scenario(g);
         let exp = expect(sc.actor, sc.obj, &sc.action);
         g.label(family_label(&sc.action));
-        let before = dump(w.db());
-        let pre_scan = scan_ledger(w.db(), &ScanOptions { validate_only: Some(&BTreeSet::new()) });
+        let (base_facts, before) = base(w);
+        let pre_scan = assemble(&base_facts);
 
         let (manifest, script) = if let Action::ForeignHandle { callee, use_, delta, which } = sc.action.clone() {
             // probe: learn the handle numbers the opening frame gets
@@ -663,7 +693,9 @@ fn case(g: &mut Gen) -> Outcome {
 
         // ---- state of everybody else is untouched
         let after = dump(w.db());
-        let post_scan = scan_ledger(w.db(), &ScanOptions { validate_only: None });
+        let mut facts: Facts = (*base_facts).clone();
+        update_facts(w.db(), &mut facts, Some(&touched_nodes(&run)));
+        let post_scan = assemble(&facts);
         let root_of = |scan: &LedgerScan, n: &NodeId| -> NodeId {
             let mut cur = *n;
             let mut steps = 0;
@@ -683,7 +715,7 @@ fn case(g: &mut Gen) -> Outcome {
             allowed_roots.insert(w.fungibles[0].address.into_node_id());
         }
         let mut changed: BTreeSet<NodeId> = BTreeSet::new();
-        for (k, v) in &before {
+        for (k, v) in before.iter() {
             if after.get(k) != Some(v) {
                 changed.insert(k.0);
             }
